@@ -440,19 +440,28 @@ func mustUnmarshal(res *sdk.Result, i int, m proto.Message) {
 	}
 }
 
-// errClass maps an error to a short stable class for the rejected-transition table.
+// errClass maps an error to a short stable class for the rejected-transition table: numbers are replaced by '#'
+// (amounts, ids), everything from the first bracket on is dropped, at most 72 characters are kept.
 func errClass(err error) string {
 	if err == nil {
 		return "ok"
 	}
-	m := []rune(err.Error())
-	out := make([]rune, 0, 56)
-	for _, c := range m {
-		if c >= '0' && c <= '9' || c == '(' || c == '{' || c == ':' && len(out) > 24 {
+	out := make([]rune, 0, 72)
+	inNum := false
+	for _, c := range err.Error() {
+		if c == '(' || c == '{' || c == '[' || c == '\n' {
 			break
 		}
+		if c >= '0' && c <= '9' {
+			if !inNum {
+				out = append(out, '#')
+			}
+			inNum = true
+			continue
+		}
+		inNum = false
 		out = append(out, c)
-		if len(out) >= 56 {
+		if len(out) >= 72 {
 			break
 		}
 	}
@@ -1015,18 +1024,24 @@ func (w *World) checkTransition(l *Ledger, op Op, ex expectation, before, after 
 	want := ex.senderD
 	got := senderD
 	if ex.looseInter != nil {
-		g2 := delta{}
-		for dn, v := range got {
-			if ex.looseInter[dn] && want.get(dn).IsZero() {
-				w.R.Vacuity["exact_out_intermediate_remainder_with_trader"]++
-				continue
+		// compare only the denoms that are not intermediate denoms of a route that revisits a pool
+		w2, g2 := delta{}, delta{}
+		for dn, v := range want {
+			if !ex.looseInter[dn] {
+				w2[dn] = v
 			}
-			g2[dn] = v
 		}
-		got = g2
+		for dn, v := range got {
+			if !ex.looseInter[dn] {
+				g2[dn] = v
+			} else if !want.get(dn).Equal(v) {
+				w.R.Vacuity["exact_out_intermediate_remainder_with_trader"]++
+			}
+		}
+		want, got = w2, g2
 	}
 	if !got.equal(want) {
-		fail("c02.sender-delta-equals-response", "", fmt.Sprintf("%s: request/response imply sender delta %s, bank shows %s", op, want, senderD))
+		fail("c02.sender-delta-equals-response", "", fmt.Sprintf("%s: request/response imply sender delta %s, bank shows %s", op, ex.senderD, senderD))
 	}
 	if !commD.equal(ex.community) {
 		fail("c02.community-pool-delta", "", fmt.Sprintf("%s: community pool moved by %s, expected %s", op, commD, ex.community))
